@@ -111,8 +111,15 @@ func (d *DateTimeSpan) ToDateTime() *DateTime {
 }
 
 func (d *DateTimeSpan) ToDateTimeWithZone(zone *Timezone) *DateTime {
-	date := d.DateSpan.ToDate()
-	time := d.TimeSpan.ToTime()
+	dateSpan := d.DateSpan
+	timeSpan := d.TimeSpan
+	if timeSpan < 0 {
+		// a negative clock borrows from the previous day
+		dateSpan.days -= 1
+		timeSpan += Day
+	}
+	date := dateSpan.ToDate()
+	time := timeSpan.ToTime()
 
 	return NewDateTime(
 		date.Year(),
